@@ -176,9 +176,40 @@ def long_cases(tier):
                 yield {"kind": "long", "lex": name, "k": k, "boundary": boundary}, longline, shortlines
 
 
+def length_cases(tier):
+    """a string literal / a run of spaces sized so that the physical line has every length around the reader's chunk size"""
+    lens = list(range(1010, 1035)) + list(range(2035, 2055)) + list(range(3060, 3072))
+    if tier != "thorough":
+        lens = list(range(1016, 1030)) + list(range(2040, 2050)) + [3065, 3066]
+    for L in lens:
+        for kind in ("string", "spaces", "comment"):
+            if kind == "string":
+                head, tail = 'x = "', '";'
+            elif kind == "spaces":
+                head, tail = "x = 1 +", "2;"
+            else:
+                head, tail = "x = 1; /*", "*/ y = 2;"
+            fill = L - len(head) - len(tail)
+            if fill < 1:
+                continue
+            body = ("a" * fill) if kind != "spaces" else (" " * fill)
+            first = head + body + tail
+            yield {"kind": "long", "lex": "line-length-%s" % kind, "k": L, "boundary": 1023}, first + "\nprint typeof(x);\nprint 7;\n"
+
+
 def long_gen(tier):
     def gen():
         n = 0
+        for meta, text in length_cases(tier):
+            lf, crlf = text, text.replace("\n", "\r\n")
+            ops = [op_ctx(0), "tokens 0 %s s" % hx(lf), op_ctx(1), "tokens 1 %s s" % hx(crlf),
+                   op_ctx(2), "parse 2 0 %s s" % hx(lf), "unparse 0", "exec 0", op_out(2),
+                   op_ctx(3), "parse 3 1 %s s" % hx(crlf), "unparse 1", "exec 1", op_out(3)]
+            m = dict(meta)
+            m["crlf"] = True
+            m["text"] = crlf
+            yield Case("l%d" % n, ops, m)
+            n += 1
         for meta, longline, shortlines in long_cases(tier):
             for crlf in (False, True):
                 ll = longline.replace("\n", "\r\n") if crlf else longline
@@ -258,7 +289,8 @@ def cli_pass(tier):
     sdir = os.path.join(build.BUILD, "scratch", "cli-c13")
     os.makedirs(sdir, exist_ok=True)
     n = 0
-    for meta, longline, shortlines in long_cases("quick"):
+    cli_cases = list(long_cases("quick")) + [(m, t, t) for m, t in length_cases(tier)]
+    for meta, longline, shortlines in cli_cases:
         outs = []
         for lay, text in (("short", shortlines), ("long", longline), ("long-crlf", longline.replace("\n", "\r\n"))):
             path = os.path.join(sdir, "p.bloc")
